@@ -449,19 +449,22 @@ class Calibrator(BaseSeedable):
                 self.current_batch_index += 1
 
                 # check convergence for early termination
+                converged = False
                 if self.convergence_precision is not None:
                     converged = self.check_convergence(
                         self.losses_samp,
                         self.n_sampled_params,
                         self.convergence_precision,
                     )
-                    if converged and self.verbose:
-                        print("\nCONVERGENCE CHECK:")
-                        print("Achieved convergence loss, stopping search.")
-                        break
 
+                # the batch that triggers the stop is checkpointed like any other
                 if self.saving_folder is not None:
                     self.create_checkpoint(self.saving_folder)
+
+                if converged:
+                    print("\nCONVERGENCE CHECK:")
+                    print("Achieved convergence loss, stopping search.")
+                    break
 
             idx = np.argsort(self.losses_samp)
 
